@@ -9,7 +9,9 @@ Definition exported := (list jspec * list expr * list (expr * string))%type.
 Record jcase := mkJCase {
   c_left : frame; c_lbase : nat; c_lctes : list cmeta; c_steps : list jstep; c_fin : fin;
   c_impl : option (list string * list row);     (* df.columns and collect(); None = one of them raised *)
-  c_exported : option exported }.
+  c_exported : option exported;
+  c_twh : option (list (list expr));             (* exported: per FROM/JOIN table, every WHERE conjunct of the CTEs it is built from *)
+  c_twh_exp : list (list expr) }.                (* the same, as the program says (the filters of each input DataFrame) *)
 
 Definition strs_eqb (a b : list string) : bool :=
   Nat.eqb (List.length a) (List.length b) && forallb (fun p => String.eqb (fst p) (snd p)) (combine a b).
@@ -45,6 +47,10 @@ Definition t2_ok (c : howcfg) (k : jcase) : bool :=
   match model_state c k, c_exported k with
   | Some s, Some (js, wh, sel) =>
       list_eqb jspec_eqb (s_joins s) js && list_eqb expr_eqb (s_where s) wh && list_eqb item_eqb (s_sel s) sel
+      && match c_twh k with
+         | Some l => list_eqb (list_eqb expr_eqb) l (c_twh_exp k)     (* merging the CTEs kept every input's filters *)
+         | None => false
+         end
   | _, _ => false
   end.
 
